@@ -649,8 +649,13 @@ func (r *proxyStreamReceiver) Run(
 		r.shardManager.RegisterActiveReceiver(r.sourceShardID, r)
 		defer func() {
 			r.shardManager.RemoveLocalAckChan(r.sourceShardID, r.ackChan)
-			r.shardManager.RemoveLocalReceiverCancelFunc(r.sourceShardID)
-			r.shardManager.UnregisterActiveReceiver(r.sourceShardID)
+			// If a successor for this shard terminated us (TerminatePreviousLocalReceiver cancels our context), it has
+			// already evicted our entries and the registry now holds its own: removing them here would orphan the live
+			// receiver (no watermark replay, no termination on the next reconnect).
+			if outgoingContext.Err() == nil {
+				r.shardManager.RemoveLocalReceiverCancelFunc(r.sourceShardID)
+				r.shardManager.UnregisterActiveReceiver(r.sourceShardID)
+			}
 		}()
 	}
 
